@@ -3,8 +3,10 @@ package c15
 import (
 	"fmt"
 	"os"
+	"path/filepath"
 	"sort"
 	"strconv"
+	"strings"
 	"testing"
 	"time"
 
@@ -65,4 +67,28 @@ func TestShowCase(t *testing.T) {
 	ctx := &fw.Ctx{Seed: seed, Case: i}
 	m := Generate(ctx.Rng())
 	fmt.Printf("mode=%s\n%s", m.Mode, m.Render())
+}
+
+// TestParseTime (C15_FILES=a.sysl,b.sysl) reports the best-of-5 parse time of files.
+func TestParseTime(t *testing.T) {
+	if os.Getenv("C15_FILES") == "" {
+		t.Skip("set C15_FILES")
+	}
+	for _, f := range strings.Split(os.Getenv("C15_FILES"), ",") {
+		b, err := os.ReadFile(f)
+		if err != nil {
+			t.Fatal(err)
+		}
+		best := time.Hour
+		for k := 0; k < 5; k++ {
+			t0 := time.Now()
+			if _, err := compile(string(b)); err != nil {
+				fmt.Println(f, "error", err)
+			}
+			if d := time.Since(t0); d < best {
+				best = d
+			}
+		}
+		fmt.Printf("%-12s %v\n", filepath.Base(f), best)
+	}
 }
